@@ -35,13 +35,15 @@ REAL = ["happysimulator.core.simulation.Simulation (fast loop and instrumented l
         "happysimulator.core.clock.Clock", "happysimulator.core.control.SimulationControl (mode=control)"]
 STUBS = ["ScriptEntity handlers interpreting the JSON program (harness)", "RefEngine reference interpreter (oracle)"]
 ASSUMPTIONS = [
-    "events are created after the Simulation object is constructed (the documented usage); creation order is the order "
-    "in which the handler body constructs Event objects",
+    "the initial events of a model are created either all after the Simulation object is constructed (the documented usage) "
+    "or all before it (Simulation.__init__ resets the process-global creation counter, so mixing the two is not judged); "
+    "creation order is the order in which the harness/handler body constructs Event objects",
     "events later than end_time are outside the statement (the engine delivers the first one past end_time; not judged here)",
     "cancelled non-daemon events count as pending until lazily removed (weaker reading of auto-termination)",
 ]
 EXPECTED_PROBES = ["probe.tie_prerun_vs_inrun", "probe.cancelled_skipped", "probe.past_discarded",
-                   "probe.daemon_left_pending", "probe.generator_resumed", "probe.crashed_target_skipped"]
+                   "probe.daemon_left_pending", "probe.generator_resumed", "probe.crashed_target_skipped",
+                   "probe.events_created_before_simulation", "probe.cancelled_after_schedule"]
 SHRINK_SKIP = ("n_entities", "n_kinds")
 
 
@@ -50,6 +52,8 @@ def gen(rng, tier):
     modes = ["control", "plain"] + (["fast", "fast"] if prog["end"] is not None else [])
     prog["mode"] = rng.choice(modes)
     prog["perturb"] = rng.randrange(0, 50) if rng.random() < 0.3 else 0
+    # all initial events are built either after the Simulation object exists (usual) or all before it
+    prog["create_before_sim"] = rng.random() < 0.25
     return prog
 
 
@@ -84,15 +88,18 @@ def run_engine(sc):
     # perturbation: unrelated earlier activity in the interpreter
     for _ in range(sc.get("perturb", 0)):
         _E(time=Instant(0), event_type="noise", target=pr.entities[0])
+    evs = pr.build_initial() if sc.get("create_before_sim") else None
     sim = Simulation(entities=pr.entities, end_time=Instant(end) if end is not None else None)
     pr.sim = sim
-    evs = pr.build_initial()
+    if evs is None:
+        evs = pr.build_initial()
     if evs:
         if len(evs) % 2:
             sim.schedule(evs)
         else:
             for e in evs:
                 sim.schedule(e)
+    pr.apply_late_cancels()
     if sc.get("mode") == "control":
         sim.control.on_event(lambda e: None)
     summary = sim.run()
@@ -178,6 +185,8 @@ def run(sc):
         "probe.daemon_left_pending": int(sc.get("end") is None and any(p["daemon"] for p in ref.pending)),
         "probe.generator_resumed": int(has_gen),
         "probe.crashed_target_skipped": int(ref.processed > len(ref.log)),
+        "probe.events_created_before_simulation": int(bool(sc.get("create_before_sim")) and len(sc["initial"]) > 1),
+        "probe.cancelled_after_schedule": int(any(i.get("cancel") == "late" for i in sc["initial"])),
         f"mode.{sc.get('mode')}": 1,
         "deliveries_past_end_time_observed": sum(1 for x in pr.log if sc.get("end") is not None and x[2] > sc["end"]),
     }
